@@ -64,7 +64,7 @@ def check(prog, rep, tier):
     n = 0
     for state in ORDER:
         for r in tab.get('WIRE', state):
-            if r.wire['cls'] == 'OPEN' and r.final == 'OpenConfirm':
+            if r.wire['cls'] == 'OPEN' and r.final == 'OpenConfirm' and r.pre == 'OpenSent':
                 n += 1
                 ka = r.field('fsm', 'keep_alive_time')
                 h = r.field('fsm', 'hold_time')
